@@ -42,7 +42,7 @@ CONFIG = {
                  'EG.trivial_scc_rejected', 'memo.hit',
                  'root:A.U', 'root:E.R', 'root:A.R', 'root:imply',
                  'style:text', 'style:raw', 'style:ctls_obj', 'states:renamed',
-                 'family:nary_prefix', 'history:mutation'],
+                 'family:nary_prefix', 'history:mutation', 'stream:large_EG'],
     'rule': ('cases = (Kripke structure, CTL state formula, presentation '
              'style); enumerated: isomorphism-class representatives of all '
              'total structures with <=3 states over {p,q} x all formulas of '
@@ -457,6 +457,30 @@ def run(ctx):
         if not ctx.mine(k):
             continue
         run_case(rename_states(nk, k), npf[k % len(npf)], i)
+        i += 1
+    # larger structures (6-9 states) where most states satisfy the operand, so
+    # that the phi-subgraphs of EG/EU have several components, tails and
+    # cross edges; string/tuple state names vary the visiting order
+    p_, q_ = ('ap', 'p'), ('ap', 'q')
+    egf = [('E', ('G', p_)), ('A', ('F', ('not', p_))),
+           ('A', ('U', q_, ('not', p_))), ('E', ('R', ('not', p_), p_)),
+           ('E', ('G', ('or', p_, q_))), ('A', ('F', ('and', ('not', p_), q_))),
+           ('E', ('U', p_, ('E', ('G', p_)))), ('A', ('G', ('E', ('G', p_)))),
+           ('E', ('G', ('E', ('X', p_)))), ('A', ('R', q_, ('A', ('F', q_)))),
+           ('and', ('E', ('G', p_)), ('not', ('E', ('G', ('and', p_, q_)))))]
+    for k in range(7000 if ctx.quick else 250000):
+        if not ctx.mine(k):
+            continue
+        rr = gen.rng(ctx.seed, PROP, ('eg', k))
+        nk0 = gen.random_structure(rr, 9, atoms=('p', 'q'), nmin=6,
+                                   maxdeg=2, shape=rr.choice(
+                                       ['plain', 'chain', 'plain']))
+        labels = [frozenset(a for a in ('p', 'q')
+                            if rr.random() < (0.8 if a == 'p' else 0.3))
+                  for _ in range(nk0.n)]
+        nk = NK(range(nk0.n), nk0.succ, labels)
+        LOG.sig['stream:large_EG'] += 1
+        run_case(rename_states(nk, k), rr.choice(egf), 4 * i)
         i += 1
     for k in range(400 if ctx.quick else 8000):
         rr = gen.rng(ctx.seed, PROP, ('mut', k))
